@@ -133,6 +133,12 @@ def run(rep, tier, driver):
                           key=("uronic:muramic acid (reactor.py 'A' walk follows the lactyl side chain)" if ("uronic" in tag and parent.startswith("Mur")) else "%s:%s" % (tag, name)))
     for name, (parent, op, args) in sorted(jobs.items()):
         judge(name, parent, [(op, args)])
+    # the Lean Model of reactor_basic.py (open-form rewrites, resizing extension) against the code, observed inside real conversions
+    import basicx
+    bnames = [n for n in names if any(x in n for x in ("-ol", "-onic", "-aric", "Hep", "Hex", "Oct", "Pen"))]
+    bnames += [c + suf for c in vocab.sugars_ol for suf in ("-ulosonic", "-ulosaric", "-aric", "Hep-ol", "Oct-onic", "Hex-ulosonic", "Pen-ol")]
+    bnames += [pre + c + suf for c in ("Man", "Gal", "Glc", "Ara", "Xyl", "Qui", "Fuc") for pre in ("LD", "DD", "LL", "DL", "L", "D", "LDD", "") for suf in ("Hep", "Oct", "Hex", "Pen")]
+    basicx.run(rep, tier, driver, bnames if tier != "quick" else bnames[:500])
     for name, parent, steps in combos:
         judge(name, parent, steps)
 
